@@ -1,131 +1,38 @@
 import PdfVerif.Props.C15cnt
+import PdfVerif.Lemmas.C01Num
 /-!
 # C15 — integer operands: `strconv.FormatInt` digits scan back as the integer
 
-`Model/Format.lean` writes integers with Lean's `toString : Int → String` (the decimal digits,
-as `strconv.FormatInt(x, 10)`; tied to the Go code by the byte-identical `fmt` lines of the
-correspondence run).  This file proves, for *every* 64-bit integer, that the content scanner
-reads the written token back as that integer (`int_tok`).
+`Model/Format.lean` writes integers with its structural decimal printer `intDec`/`natDec`
+(tied to `strconv.FormatInt(x, 10)` by the byte-identical `fmt` lines of the correspondence
+run).  This file proves, for *every* 64-bit integer, that the content scanner reads the written
+token back as that integer (`int_tok`), reusing the digit lemmas of `Lemmas/C01Num.lean`
+(`digitsVal_natDec`, `natDec_digits`, `natDec_length_le`).
 -/
 namespace PdfVerif.C15cntd
-open PdfVerif PdfVerif.CNT PdfVerif.C15cnt
-
-/-! ## Lean's `String.toUTF8` on ASCII strings -/
-
-theorem ba_size (bs : ByteArray) : bs.size = bs.data.toList.length := by
-  cases bs with | mk d => simp [ByteArray.size]
-
-theorem ba_get (bs : ByteArray) (i : Nat) (h : i < bs.data.toList.length) : bs.get! i = bs.data.toList[i] := by
-  cases bs with | mk d =>
-    simp only [ByteArray.get!]
-    have : i < d.size := by simpa using h
-    simp [getElem!_pos d i this]
-
-theorem ba_loop (bs : ByteArray) : ∀ (k i : Nat) (r : List UInt8), bs.size - i = k → i ≤ bs.size →
-    ByteArray.toList.loop bs i r = r.reverse ++ bs.data.toList.drop i := by
-  intro k
-  induction k with
-  | zero =>
-    intro i r hk hi
-    rw [ByteArray.toList.loop]
-    have h1 : ¬ i < bs.size := by omega
-    have h2 : bs.data.toList.length ≤ i := by rw [← ba_size]; omega
-    rw [if_neg h1, List.drop_eq_nil_of_le h2, List.append_nil]
-  | succ k ih =>
-    intro i r hk hi
-    rw [ByteArray.toList.loop]
-    have hlt : i < bs.size := by omega
-    rw [if_pos hlt, ih (i+1) _ (by omega) (by omega)]
-    have hlt' : i < bs.data.toList.length := by rw [← ba_size]; exact hlt
-    rw [List.drop_eq_getElem_cons hlt', ba_get bs i hlt']
-    simp
-
-theorem ba_toList (bs : ByteArray) : bs.toList = bs.data.toList := by
-  have := ba_loop bs bs.size 0 [] (by omega) (by omega)
-  simpa [ByteArray.toList] using this
-
-/-- the UTF-8 bytes of an ASCII string are its character codes -/
-theorem utf8_ascii (l : List Char) (h : ∀ c ∈ l, c.toNat < 128) :
-    bytesOfString (String.ofList l) = l.map Char.toNat := by
-  have e : (String.ofList l).toUTF8 = (l.flatMap String.utf8EncodeChar).toByteArray := by
-    simp [String.toUTF8, List.utf8Encode]
-  rw [bytesOfString, e, ba_toList, List.toList_data_toByteArray]
-  clear e
-  induction l with
-  | nil => rfl
-  | cons c cs ih =>
-    have hc : c.toNat < 128 := h c (by simp)
-    have hv : c.val.toNat < 128 := hc
-    have h1 : c.utf8Size = 1 := by
-      simp only [Char.utf8Size]
-      have : c.val ≤ 127 := by
-        rw [UInt32.le_iff_toNat_le]; simp; omega
-      simp [this]
-    have := ih (fun d hd => h d (by simp [hd]))
-    simp only [List.flatMap_cons, String.utf8EncodeChar_eq_singleton h1, List.map_cons, List.cons_append,
-      List.nil_append]
-    rw [this]
-    congr 1
-    show c.val.toUInt8.toNat = c.val.toNat
-    rw [UInt32.toNat_toUInt8]
-    omega
-
-/-! ## decimal digits -/
+open PdfVerif PdfVerif.CNT PdfVerif.C15cnt PdfVerif.C01L
 
 /-- the digit bytes of a natural number -/
-def digs (n : Nat) : Bytes := (Nat.toDigits 10 n).map Char.toNat
-
-theorem digit_char (c : Char) (h : c.isDigit = true) : 48 ≤ c.toNat ∧ c.toNat ≤ 57 := by
-  simp [Char.isDigit, UInt32.le_iff_toNat_le] at h
-  exact h
+def digs (n : Nat) : Bytes := natDec n
 
 theorem digs_digit (n : Nat) : ∀ b ∈ digs n, 48 ≤ b ∧ b ≤ 57 := by
   intro b hb
-  simp [digs] at hb
-  obtain ⟨c, hc, rfl⟩ := hb
-  exact digit_char c (Nat.isDigit_of_mem_toDigits (by decide) (by decide) hc)
+  exact (isDigit_iff b).mp (natDec_digits n b hb)
 
-theorem digs_ne (n : Nat) : digs n ≠ [] := by
-  simp [digs, Nat.toDigits_ne_nil]
+theorem digs_ne (n : Nat) : digs n ≠ [] := natDec_ne_nil n
 
-theorem natToDec_eq (n : Nat) : natToDec n = digs n := by
-  rw [natToDec, Nat.toString_eq_ofList_toDigits, digs]
-  apply utf8_ascii
-  intro c hc
-  have := digit_char c (Nat.isDigit_of_mem_toDigits (by decide) (by decide) hc)
-  omega
+theorem digs_val (n : Nat) : digitsVal (digs n) 0 = n := digitsVal_natDec n
 
-theorem digitsVal_eq (l : List Char) : ∀ acc, digitsVal (l.map Char.toNat) acc = Nat.ofDigitChars 10 l acc := by
-  induction l with
-  | nil => intro acc; simp [digitsVal]
-  | cons c cs ih =>
-    intro acc
-    simp only [List.map_cons, digitsVal, Nat.ofDigitChars_cons, ih]
-    congr 1
-    simp [Nat.mul_comm]
+theorem digs_length (n : Nat) (h : n < 10 ^ 19) : (digs n).length ≤ 19 :=
+  natDec_length_le 19 n (by decide) h
 
-theorem digs_val (n : Nat) : digitsVal (digs n) 0 = n := by
-  rw [digs, digitsVal_eq, Nat.ofDigitChars_ten_toDigits]
-
-theorem digs_length (n : Nat) (h : n < 10 ^ 19) : (digs n).length ≤ 19 := by
-  simp only [digs, List.length_map]
-  exact (Nat.length_toDigits_le_iff (by decide) (by decide)).mpr h
-
-theorem intToDec_eq (i : Int) : intToDec i = if 0 ≤ i then digs i.toNat else 45 :: digs (-i).toNat := by
-  rw [intToDec, Int.toString_eq_repr, Int.repr_eq_if]
-  split
-  · exact natToDec_eq _
-  · have e : "-" ++ (-i).toNat.repr = String.ofList ('-' :: Nat.toDigits 10 (-i).toNat) := by
-      apply String.toList_inj.mp
-      simp
-    rw [e, utf8_ascii]
-    · simp [digs]
-    · intro c hc
-      simp at hc
-      rcases hc with rfl | hc
-      · decide
-      · have := digit_char c (Nat.isDigit_of_mem_toDigits (by decide) (by decide) hc)
-        omega
+theorem intDec_eq (i : Int) : intDec i = if 0 ≤ i then digs i.toNat else 45 :: digs (-i).toNat := by
+  cases i with
+  | ofNat n => simp [intDec, digs]
+  | negSucc n =>
+    have h : ¬ (0 : Int) ≤ Int.negSucc n := by omega
+    have e : (-Int.negSucc n).toNat = n + 1 := by omega
+    simp [intDec, digs, h, e]
 
 /-! ## the scanner on digit tokens -/
 
@@ -190,8 +97,8 @@ theorem parseNumber_neg_digits (ds : Bytes) (hne : ds ≠ []) (h : ∀ b ∈ ds,
 /-- **Integer round trip**: for every 64-bit integer, the digits the writer emits are a token of
 regular bytes which `ScanToken` classifies as that integer. -/
 theorem int_tok (i : Int) (hlo : -9223372036854775808 ≤ i) (hhi : i ≤ 9223372036854775807) :
-    RegTok (intToDec i) (.int i) := by
-  rw [intToDec_eq]
+    RegTok (intDec i) (.int i) := by
+  rw [intDec_eq]
   by_cases h0 : 0 ≤ i
   · simp only [h0, if_true]
     have hd := digs_digit i.toNat
